@@ -332,6 +332,112 @@ def rule_d(ctx, fns):
     return n
 
 
+def rule_e_setup_keeps_settings(ctx, fns, cls="stir::ScatterSimulation"):
+    """`After any sequence of changes followed by set-up the result equals that of a freshly configured simulation` needs set_up() to
+    start from what the user asked for, every time.  A scalar setting (parsing key or set_* member of arithmetic type) whose default
+    means `choose automatically` must not be replaced by the value chosen for the current images: a function reachable from set_up()
+    may assign a setting only if its LAST assignment on every path to the exit stores the function's own parameter again and set_up's
+    call chain passes the setting itself for that parameter (net effect: unchanged).  set_up() itself never assigns one."""
+    by = {}
+    for f in fns:
+        if f.body is not None:
+            by.setdefault(f.qn, f)
+    settings = {}
+    for f in fns:
+        if f.body is None:
+            continue
+        for c in f.calls():
+            if (c.callee or "").split("::")[-1] == "add_key" and len(c.call_args()) >= 2:
+                for a in c.call_args()[1:]:
+                    a = a.strip()
+                    if a.k == "UnaryOperator" and a.op == "&" and a.c[0].strip().k == "MemberExpr" and a.c[0].strip().get("mk") == "field" and re.fullmatch(r"(const )?(int|float|double|bool|unsigned int)", (a.c[0].strip().type or "").strip()):
+                        settings.setdefault(a.c[0].strip().get("n"), "parsing key")
+    su = [f for f in fns if f.qn == cls + "::set_up" and f.body is not None]
+    if not su or len(settings) < 4:
+        ctx.unrec(cls, "set_up() or the scalar settings were not recognised (%d settings)" % len(settings))
+        return 0
+    # closure of set_up over member calls on this, remembering the call sites
+    closure, sites, todo = {}, {}, [su[0]]
+    while todo:
+        g = todo.pop()
+        if g.qn in closure:
+            continue
+        closure[g.qn] = g
+        for c in g.calls():
+            if c.callee in by and c.call_object() is not None and c.call_object().k == "CXXThisExpr" and by[c.callee].cls == cls:
+                sites.setdefault(c.callee, []).append(c)
+                todo.append(by[c.callee])
+    n = 0
+    for name, how in sorted(settings.items()):
+        sk = "this." + name
+        memo = {}
+        why = {}
+
+        def summary(qn, stack=()):
+            """net effect of the member function on the setting: ('same',), ('param', i) = ends by storing its i-th parameter, ('changed',)"""
+            if qn in memo:
+                return memo[qn]
+            if qn in stack:
+                return ("same",)
+            g = closure[qn]
+            if not g.cfg_raw:
+                memo[qn] = ("same",)
+                return memo[qn]
+            cfg = CFG(g)
+            defs = LocalDefs(g)
+            sub = {d: defs.single_def(d) for d in defs.decl}
+            pkeys = {"v%d" % p["d"]: k for k, p in enumerate(g.params)}
+            events = []  # (node, kind) kind: ('param', i) restoring, or 'other'
+            for m in g.walk():
+                if m.i not in cfg.pos:
+                    continue
+                if m.is_call() and m.callee in closure and m.call_object() is not None and m.call_object().k == "CXXThisExpr":
+                    cs = summary(m.callee, stack + (qn,))
+                    if cs == ("same",):
+                        continue
+                    if cs[0] == "param" and cs[1] < len(m.call_args()):
+                        ak = key(m.call_args()[cs[1]].strip(), False, sub)
+                        if ak == sk:
+                            continue  # stores the setting itself: no effect
+                        events.append((m, ("param", pkeys[ak]) if ak in pkeys else "other"))
+                    else:
+                        events.append((m, "other"))
+                elif any(root_of_lvalue(e) == sk for e in written_lvalues(m)):
+                    if m.k == "BinaryOperator" and m.op == "=" and key(m.c[0].strip()) == sk:
+                        rk = key(m.c[1].strip(), False, sub)
+                        if rk == sk:
+                            continue
+                        events.append((m, ("param", pkeys[rk]) if rk in pkeys else "other"))
+                    else:
+                        events.append((m, "other"))
+            if not events:
+                memo[qn] = ("same",)
+                return memo[qn]
+            rest = [(m, k) for m, k in events if k != "other"]
+            others = [m for m, k in events if k == "other"]
+            idxs = {k[1] for _m, k in rest}
+            rid = {m.i for m, _k in rest}
+            if rest and len(idxs) == 1 and (not others or cfg.must_pass_before_exit(others, lambda x: x.i in rid) is None):
+                memo[qn] = ("param", next(iter(idxs)))
+            else:
+                memo[qn] = ("changed",)
+                why[qn] = (others[0] if others else rest[0][0])
+            return memo[qn]
+
+        res = summary(su[0].qn)
+        ok = res == ("same",)
+        where = su[0]
+        det = "the set-up chain leaves the setting `%s` (%s) as the user gave it" % (name, how)
+        if not ok:
+            culprit = [q for q, v in memo.items() if v == ("changed",)]
+            cq = culprit[0] if culprit else su[0].qn
+            where = why.get(cq, su[0])
+            det = "setting `%s` (%s): %s() stores the value chosen for the current images in the setting - the next set_up() starts from it, not from what the user asked for, and differs from a freshly configured simulation" % (name, how, cq.split("::")[-1])
+        ctx.ob("C16.e-setup-keeps-settings", cls, "setting:" + name, ok, where.where(), det)
+        n += 1
+    return n
+
+
 def uniq(fns):
     seen, out = set(), []
     for f in fns:
@@ -366,6 +472,8 @@ def run(ctx):
     rule_c(ctx, uniq(us[1].functions))
     allf = uniq([f for u in us[1:] for f in u.functions])
     rule_d(ctx, allf + [f for f in uniq(us[0].functions) if (f.file, f.line) not in {(g.file, g.line) for g in allf}])
+    rule_e_setup_keeps_settings(ctx, allf)
+    ctx.require_count("C16.e-setup-keeps-settings", 6)
     ctx.require_count("C16.a-exchange-symmetry", 3)
     ctx.require_count("C16.b-linear-in-activity", 3)
     ctx.require_count("C16.c-cache-equivalence", 2)
